@@ -54,6 +54,10 @@ type FmtCase struct {
 	// file left behind defines either what it defined before (task not run) or what the next
 	// version defines (task run) - never the old definitions written over the new file.
 	SelfEdit string `json:"self_edit,omitempty"`
+	// FileLimit: the first --fmt runs with a file size limit equal to the size the spokfile has (when its
+	// formatted form is longer): writing the formatted text fails half way. spok may fail, and what
+	// it leaves of the file when it does is not judged here; if it reports success, the file is formatted.
+	FileLimit bool `json:"file_limit,omitempty"`
 }
 
 // genFmt draws an abstract program in a random layout whose loading has no side effects
@@ -85,6 +89,8 @@ func genFmt(t *rapid.T) FmtCase {
 		c.ClosedStdout, c.History = true, ""
 	case 3:
 		c.SelfEdit, c.History = rapid.SampledFrom([]string{"after", "before"}).Draw(t, "self_edit"), ""
+	case 4, 5:
+		c.FileLimit, c.History = true, ""
 	}
 	return c
 }
@@ -229,7 +235,21 @@ func execFmtBinary(id string, s *ev.Shard, b *sandbox.Box, c FmtCase) *rp.Fail {
 		_ = os.Chmod(path, 0o444)
 	}
 	b.ClosedStdout = c.ClosedStdout
+	limited := c.FileLimit && len(tree1.String()) > len(src) && len(src) > 0
+	if limited {
+		b.FsizeLimit = int64(len(src))
+	}
 	r1 := b.Run(cwd, nil, runTimeout, fmtArgs...)
+	if limited && (r1.Exit != 0 || r1.Signal != "") {
+		// it said it could not do it
+		if s != nil {
+			s.Class("fmt_hit_a_file_size_limit")
+		}
+		return nil
+	}
+	if limited && s != nil {
+		s.Class("fmt_succeeded_under_a_file_size_limit")
+	}
 	if r1.TimedOut {
 		return &rp.Fail{Sig: "harness", Msg: "spok --fmt timed out"}
 	}
